@@ -36,7 +36,7 @@ def timeout(tier):
 
 
 def floors(tier):
-    return {"calls": 5000, "overlapping_calls": 2000, "switches_inside_repo": 5000, "rounds": 40, "rounds_with_injection": 15,
+    return {"calls": 5000, "overlapping_calls": 2000, "switches_inside_repo": 5000, "rounds": 60, "rounds_with_injection": 25, "set:yield_focus": 6,
             "novel_symbol_jobs": 2000, "same_input_in_several_threads": 500, "set:thread_counts": 4, "M4b.augmenting_path_searches": 300}
 
 
@@ -100,7 +100,7 @@ def run(ctx):
     hooks.attach_m4b()
     old = sys.getswitchinterval()
     try:
-        for rnd in range(4 if quick else 100):
+        for rnd in range(6 if quick else 100):
             t = rng.choice(["default", "hypervalent", "octet_rule", tablegen.random_table(rng, q=rng.choice([4, 8]))])
             sf.set_semantic_constraints(t)
             table = sf.get_semantic_constraints()
@@ -135,7 +135,11 @@ def run(ctx):
                 except BaseException as e:   # harness failure, never swallowed
                     errors.append(repr(e))
 
-            inj = YieldInjector(0.02, rng.getrandbits(32))
+            # every injected round concentrates the forced switches on one source file (and keeps a low rate elsewhere)
+            focus = rng.choice(["matching_utils", "mol_graph", "decoder", "encoder", "grammar_rules", "smiles_utils",
+                                "bond_constraints", None])
+            inj = YieldInjector(0.02 if focus is None else 0.005, rng.getrandbits(32), focus=focus, p_focus=0.1)
+            ctx.see("yield_focus", focus or "uniform")
             before = cache_probe()
             sys.setswitchinterval(1e-6)
             if inject:
